@@ -659,7 +659,9 @@ void Blocks::split(Block *b, Block *&l, Block *&r, Constraint *c) {
     f<<"Split left: "<<*l<<endl;
     f<<"Split right: "<<*r<<endl;
 #endif
-    r->posn = b->posn;
+    // Keep r's variables where they were: positions are
+    // (block scale * posn + offset) / variable scale.
+    r->posn = b->posn * b->ps.scale / r->ps.scale;
     //COLA_ASSERT(r->weight!=0);
     //r->wposn = r->posn * r->weight;
     mergeLeft(l);
